@@ -345,7 +345,7 @@ func c16Unit(c *RunCtx, unit int) {
 func init() {
 	register(&Check{
 		ID: "C16", Level: "exploration",
-		Rule:  "two-run monitor: from one snapshot of the whole world (storage, sessions, jar, outboxes, virtual clock) request A is run, the outcome recorded, the snapshot restored, request B run; status, every header, body, the browser's resulting session map and cookie jar are compared byte for byte (only the sid value and the submitted identifier canonicalised). Pairs: (a) correct vs incorrect password / OTP for a locked, confirmed account; (b) recovery start for an existing vs a similar non-existing identifier, asked once and asked twice in a row (1 s / 5 s / 2 min apart: the existing account then holds a pending token); (c) login / OTP login for an unknown identifier vs a known one with a wrong secret, restricted — decided from storage and the statement's lock automaton BEFORE running — to accounts that are not locked and that this attempt does not lock; the known side also includes accounts whose stored password is no usable hash (OAuth2-created, empty, foreign format, truncated). Account states come from a random prelude of failures, successes, manual lock/unlock and clock advances over random module subsets, load orders of lock/confirm, LockAfter 1-4, with rm/redir present or not, form and JSON. Every third pair runs in a session that holds the visitor's own parked second-factor login (state left by an earlier flow). A third of the units use a storer that matches identifiers case-insensitively and type every identifier in the opposite case. A quarter of the units load the expire hooks and middleware next to auth + lock (expire.Setup before ab.Init in half of those). distinct_nontrivial = distinct (pair kind, account state, mode, load order, outcome) signatures.",
+		Rule:  "two-run monitor: from one snapshot of the whole world (storage, sessions, jar, outboxes, virtual clock) request A is run, the outcome recorded, the snapshot restored, request B run; status, every header, body, the browser's resulting session map and cookie jar are compared byte for byte (only the sid value and the submitted identifier canonicalised). Pairs: (a) correct vs incorrect password / OTP for a locked, confirmed account; (b) recovery start for an existing vs a similar non-existing identifier, asked once and asked twice in a row (1 s / 5 s / 2 min apart: the existing account then holds a pending token); (c) login / OTP login for an unknown identifier vs a known one with a wrong secret, restricted — decided from storage and the statement's lock automaton BEFORE running — to accounts that are not locked and that this attempt does not lock; the known side also includes accounts whose stored password is no usable hash (OAuth2-created, empty, foreign format, truncated). Account states come from a random prelude of failures, successes, manual lock/unlock and clock advances over random module subsets, load orders of lock/confirm, LockAfter 1-4, with rm/redir present or not, form and JSON. Every third pair runs in a session that holds the visitor's own parked second-factor login (state left by an earlier flow). A third of the units use a storer that matches identifiers case-insensitively and type every identifier in the opposite case. A quarter of the units load the expire hooks and middleware next to auth + lock (expire.Setup before ab.Init in half of those). The locked pair is also run while the user store refuses writes on both requests. distinct_nontrivial = distinct (pair kind, account state, mode, load order, outcome) signatures.",
 		Units: func(t string) int { return tierN(t, 500, 40000) },
 		Run:   c16Unit,
 		Floors: func(t string) map[string]int {
